@@ -69,7 +69,46 @@ func heldLocks(fn *ssa.Function) []ssa.Instruction {
 	if explicitUnlock {
 		return nil // a non-deferred Unlock: the held region is not the rest of the function; not handled, treated as unprotected
 	}
+	// a call of a function that takes a lock and comes back with it held (and hands back the release, which the caller defers)
+	instrsOf(fn, func(x ssa.Instruction) {
+		call, ok := x.(*ssa.Call)
+		if !ok {
+			return
+		}
+		if w := call.Call.StaticCallee(); w != nil && w != fn && isAcquireWrapper(w) && releaseDeferred(fn, call) {
+			locks = append(locks, x)
+		}
+	})
 	return locks
+}
+
+// isAcquireWrapper: the function locks a sync mutex and never unlocks it itself.
+func isAcquireWrapper(fn *ssa.Function) bool {
+	locks, unlocks := 0, 0
+	instrsOf(fn, func(x ssa.Instruction) {
+		callee := staticCallee(x)
+		if callee == nil || callee.Pkg == nil || callee.Pkg.Pkg.Path() != "sync" {
+			return
+		}
+		switch callee.Name() {
+		case "Lock", "RLock":
+			locks++
+		case "Unlock", "RUnlock":
+			unlocks++
+		}
+	})
+	return locks > 0 && unlocks == 0
+}
+
+// releaseDeferred: the caller defers the function value that the acquire wrapper handed back.
+func releaseDeferred(fn *ssa.Function, call *ssa.Call) bool {
+	ok := false
+	instrsOf(fn, func(x ssa.Instruction) {
+		if d, isD := x.(*ssa.Defer); isD && d.Call.Value == ssa.Value(call) {
+			ok = true
+		}
+	})
+	return ok
 }
 
 // lockProtected: the instruction is dominated by a sync Lock that is held to the end of its function; or its function is a
@@ -711,14 +750,42 @@ func ruleGlobalsReinit(c *Ctx, rule string) {
 		// find a constant store that dominates everything else
 		okReset := false
 		why := "no constant store found"
+		// candidates: the constant stores themselves, and every call of a helper that performs such a store on each of its paths
+		// (begin_parse(): lock, reset, hand back the unlock) - for the caller the call is the reset
+		type cand struct {
+			in     ssa.Instruction
+			helper *ssa.Function
+		}
+		var cands []cand
 		for _, reset := range accs[g] {
 			if !reset.cst {
 				continue
 			}
+			cands = append(cands, cand{reset.in, nil})
+			H := reset.in.Parent()
+			always := len(H.Blocks) > 0 && NewPostDom(H).PostDominates(reset.in.Block(), H.Blocks[0])
+			inner := true
+			for _, a := range accs[g] {
+				if a.in.Parent() == H && a.in != reset.in && !instrDominates(reset.in, a.in) {
+					inner = false
+				}
+			}
+			if always && inner {
+				for caller := range reach {
+					if !c.isRepoFn(caller) {
+						continue
+					}
+					for _, cs := range callsTo(caller, H) {
+						cands = append(cands, cand{cs, H})
+					}
+				}
+			}
+		}
+		for _, reset := range cands {
 			F := reset.in.Parent()
 			all := true
 			for _, a := range accs[g] {
-				if a.in == reset.in {
+				if a.in == reset.in || (reset.helper != nil && a.in.Parent() == reset.helper) {
 					continue
 				}
 				if a.in.Parent() == F {
@@ -1045,6 +1112,57 @@ func (c *Ctx) referenceEscapes(v ssa.Value, mut map[*ssa.Function]string, depth 
 			return "is stored into a map at " + c.pos(u.Pos())
 		case *ssa.Store:
 			if u.Val == v {
+				// the array behind a variadic argument list f(a, b...): what the callee does with its slice parameter decides
+				if ia, ok := u.Addr.(*ssa.IndexAddr); ok {
+					if arr, ok := ia.X.(*ssa.Alloc); ok && strings.HasPrefix(arr.Comment, "varargs") {
+						how := ""
+						for _, r2 := range *arr.Referrers() {
+							if sl, ok := r2.(*ssa.Slice); ok {
+								if h := c.referenceEscapes(sl, mut, depth+1, seen); h != "" {
+									how = h
+								}
+							}
+						}
+						if how != "" {
+							return how
+						}
+						continue
+					}
+				}
+				// a local variable (spilled because a closure captures it): follow what is loaded from it, here and in the closures
+				if a, ok := u.Addr.(*ssa.Alloc); ok {
+					how := ""
+					var follow func(ptr ssa.Value)
+					follow = func(ptr ssa.Value) {
+						if ptr.Referrers() == nil {
+							return
+						}
+						for _, r2 := range *ptr.Referrers() {
+							if how != "" {
+								return
+							}
+							switch y := r2.(type) {
+							case *ssa.UnOp:
+								if y.Op == token.MUL {
+									how = c.referenceEscapes(y, mut, depth+1, seen)
+								}
+							case *ssa.MakeClosure:
+								if fnc, ok := y.Fn.(*ssa.Function); ok {
+									for bi, b := range y.Bindings {
+										if b == ptr && bi < len(fnc.FreeVars) {
+											follow(fnc.FreeVars[bi])
+										}
+									}
+								}
+							}
+						}
+					}
+					follow(a)
+					if how != "" {
+						return how
+					}
+					continue
+				}
 				return "is stored into " + exprStr(u.Addr) + " at " + c.pos(u.Pos()) + " (the run-time state now aliases the shared object)"
 			}
 			continue
